@@ -16,8 +16,7 @@ pub struct ParsedHead {
     /// (name exactly as on the wire, value bytes)
     pub headers: Vec<(String, Vec<u8>)>,
     pub len: usize,
-    /// end offsets of the line units: request line, each header line; the last header
-    /// line and the empty line form one unit
+    /// end offsets of the lines: request line, each header line, the empty line
     pub units: Vec<usize>,
 }
 
@@ -93,10 +92,8 @@ pub fn parse_request_head_strict(b: &[u8]) -> Result<ParsedHead, String> {
         headers.push((String::from_utf8_lossy(name).to_string(), value.to_vec()));
         units.push(e + 2);
     }
-    // glue the blank line to the last unit
-    if let Some(last) = units.last_mut() {
-        *last = len;
-    }
+    // the empty line is a line of its own
+    units.push(len);
     Ok(ParsedHead {
         method: String::from_utf8_lossy(parts[0]).to_string(),
         target: String::from_utf8_lossy(parts[1]).to_string(),
@@ -436,8 +433,11 @@ pub fn encode_plan(plan: &ChunkPlan, salt: u8) -> Coded {
     c
 }
 
-pub const CHUNK_EXTS: [&str; 6] = [
+pub const CHUNK_EXTS: [&str; 8] = [
     ";x",
+    // blanks in front of the ';' (allowed to a recipient as "bad whitespace", RFC 9112 section 7.1.1), few and many
+    " \t;x",
+    "                      ;pad=1",
     ";name=value",
     ";a=\"q\"",
     // chunk extensions are not bounded by the grammar: lines longer than 20 bytes, longer than 100 bytes
@@ -476,11 +476,20 @@ pub fn random_plan(rng: &mut Rng, max_chunks: usize, max_size: usize) -> ChunkPl
         plan.chunks.push(ChunkSpec {
             size,
             upper: rng.chance(1, 3),
-            zeros: if rng.chance(1, 4) { rng.usize_in(1, 3) } else { 0 },
+            // the number of digits is not bounded by the grammar: a few zeros, or padded to a fixed wide column
+            zeros: match rng.below(16) {
+                0..=3 => rng.usize_in(1, 3),
+                4 => rng.usize_in(16, 40),
+                _ => 0,
+            },
             ext: if rng.chance(1, 4) { Some(*rng.pick(&CHUNK_EXTS)) } else { None },
         });
     }
-    plan.last_zeros = if rng.chance(1, 5) { rng.usize_in(1, 2) } else { 0 };
+    plan.last_zeros = match rng.below(20) {
+        0..=3 => rng.usize_in(1, 2),
+        4 => rng.usize_in(19, 40),
+        _ => 0,
+    };
     plan.last_ext = if rng.chance(1, 6) { Some(*rng.pick(&CHUNK_EXTS)) } else { None };
     let nt = if rng.chance(1, 3) { rng.usize_in(1, 2) } else { 0 };
     for _ in 0..nt {
